@@ -455,3 +455,24 @@ Print Assumptions C03_disturbed_inspection_fails_or_same.
 (** non-vacuity: the witness database of C03_sql is inspected with 6 statements (one table, one index) *)
 Example C03_disturbed_nonvacuous : reads _ _ (cat_of w_db) inspect_prog = 6%nat.
 Proof. vm_compute. reflexivity. Qed.
+
+(** 7b. The contract of 7 is FALSE for the result-set loops of sql/sqlite/inspect.go when the failure arrives
+    while the rows are read (which is where go-sqlite3 reports "database is locked": from rows.Next(), not
+    from QueryContext): none of the six [for rows.Next()] loops looks at rows.Err().  Model of the loop with
+    and without the check; without it, a table-list statement that breaks off before its first row is read
+    as "no tables" -- not an error, and not the undisturbed answer -- for every non-empty catalogue.
+    Reproduced on the real driver with a second connection holding the database during one statement
+    (stage fault, lock mode: 80 of 146 locked inspections export less without an error; known finding
+    C03-rows-err-unchecked, fix proposal notes/fixes/C03-rows-err.diff). *)
+Theorem C03_disturbed_inspection_rows_refuted :
+  forall d, inspect d <> [] ->
+  read_rows_unchecked (inspect d) (Some 0%nat) = Some [] /\
+  read_rows_unchecked (inspect d) (Some 0%nat) <> None /\
+  read_rows_unchecked (inspect d) (Some 0%nat) <> Some (inspect d) /\
+  (forall break, read_rows_checked (inspect d) break = None \/ read_rows_checked (inspect d) break = Some (inspect d)).
+Proof.
+  intros d H. destruct (inspect d) as [|x l] eqn:E; [contradiction|].
+  destruct (read_rows_unchecked_refuted x l) as (A & B & C).
+  split; [exact A|]. split; [exact B|]. split; [exact C|]. intro b. apply read_rows_checked_fails_or_same.
+Qed.
+Print Assumptions C03_disturbed_inspection_rows_refuted.
